@@ -34,6 +34,7 @@ ITEM_HARNESS = {
 PROPERTY_BOUNDED = {
     'C01': ['roundtrip'], 'C03': ['raw_keys'], 'C08': ['index_flatten'], 'C09': ['rewrite', 'hermes_rewrite'],
     'C14': ['hermes_scope'], 'C13': ['root_setters', 'builder_model'], 'C07': ['rmi_roundtrip'], 'C12': ['header'], 'C04': ['ordering'],
+    'C10': ['adjust', 'adjust_dups'],
 }
 _results = {}
 _built = {}
@@ -46,10 +47,12 @@ def run_harness(name):
     env = dict(os.environ, VERIF_REPO=REPO)
     try:
         p = subprocess.run([os.path.join(VERIF, 'bin', 'bounded'), name], capture_output=True, text=True, timeout=900, env=env)
-        out = p.stdout.strip().split('\n')[-1] if p.stdout.strip() else ''
+        lines = [l for l in p.stdout.strip().split('\n') if l.startswith('{')]
+        out = lines[-1] if lines else ''
         if p.returncode in (0, 1) and out.startswith('{'):
             d = json.loads(out)
             d['status'] = 'counterexample' if d.get('counterexample') else 'passed'
+            d['known'] = [json.loads(l) for l in lines[:-1] if '"known_finding"' in l]
         else:
             d = dict(harness=name, status='unavailable', note=(p.stdout + p.stderr)[-600:])
     except Exception as e:
